@@ -31,7 +31,7 @@ from dashlive.server.manifests import DashManifest
 from dashlive.server.options.container import OptionsContainer
 from dashlive.server.options.types import OptionUsage
 from dashlive.utils import objects
-from dashlive.utils.date_time import scale_timedelta
+from dashlive.utils.date_time import from_isodatetime, scale_timedelta
 from dashlive.utils.json_object import JsonObject
 from dashlive.utils.lang import lang_is_equal
 from dashlive.utils.timezone import UTC
@@ -506,7 +506,7 @@ class ManifestContext:
         clk_cgi_params = options.generate_cgi_parameters(
             use=OptionUsage.TIME, exclude=exclude)
 
-        if options.videoErrors:
+        if options.videoErrors and video.representations:
             times = self.calculate_injected_error_segments(
                 options.videoErrors,
                 self.now,
@@ -525,7 +525,7 @@ class ManifestContext:
                     audio[0].representations[0])
                 aud_cgi_params['aerr'] = times
 
-        if options.videoCorruption:
+        if options.videoCorruption and video.representations:
             errs = [(None, tc) for tc in options.videoCorruption]
             segs = self.calculate_injected_error_segments(
                 errs,
@@ -568,9 +568,21 @@ class ManifestContext:
             seconds=timeShiftBufferDepth)
         for item in errors:
             code, pos = item
+            if isinstance(pos, str):
+                # videoCorruption entries are not parsed by their option
+                try:
+                    pos = int(pos, 10)
+                except ValueError:
+                    pos = from_isodatetime(pos)
             if isinstance(pos, int):
-                drop_seg = int(pos, 10)
+                drop_seg = pos
             else:
+                if (
+                        not isinstance(pos, (datetime.time, datetime.datetime)) or
+                        not isinstance(availabilityStartTime, datetime.datetime)):
+                    # a time of day can only be mapped to a segment of a live
+                    # stream, which has an availabilityStartTime
+                    continue
                 tm = availabilityStartTime.replace(
                     hour=pos.hour, minute=pos.minute, second=pos.second)
                 if tm < earliest_available:
